@@ -26,6 +26,8 @@ pub enum Val {
     Fb(u32),
     /// observation of the inspector state / context made at node `id`
     Obs { id: u32, n: u64, h: u64, ctx: Box<Val> },
+    /// drop-tracked value created by the mapper of a node (C19)
+    Tr(crate::track::Tracked),
 }
 
 impl Val {
@@ -43,7 +45,7 @@ impl Val {
     pub fn flat(&self, out: &mut String) {
         match self {
             // slices and spans are not part of the text (kinds without slices degrade `to_slice` to `to_span`)
-            Val::Unit | Val::Num(_) | Val::Span(..) | Val::Slice { .. } | Val::Fb(_) | Val::Obs { .. } => {}
+            Val::Unit | Val::Num(_) | Val::Span(..) | Val::Slice { .. } | Val::Fb(_) | Val::Obs { .. } | Val::Tr(_) => {}
             Val::Tok(c) => out.push(*c),
             Val::Str(s) => out.push_str(s),
             Val::Seq(v) => v.iter().for_each(|x| x.flat(out)),
@@ -140,6 +142,25 @@ impl Val {
             other => other.clone(),
         }
     }
+    /// Ids of the drop-tracked values reachable from this value.
+    pub fn tracked_ids(&self, out: &mut Vec<u32>) {
+        match self {
+            Val::Tr(t) => out.push(t.id),
+            Val::Seq(v) => v.iter().for_each(|x| x.tracked_ids(out)),
+            Val::Opt(Some(x)) => x.tracked_ids(out),
+            Val::Pair(a, b) => {
+                a.tracked_ids(out);
+                b.tracked_ids(out)
+            }
+            Val::Tag(_, v) | Val::Node { v, .. } => v.tracked_ids(out),
+            Val::FoldW { acc, x, .. } => {
+                acc.tracked_ids(out);
+                x.tracked_ids(out)
+            }
+            Val::Obs { ctx, .. } => ctx.tracked_ids(out),
+            _ => {}
+        }
+    }
     pub fn show(&self) -> String {
         match self {
             Val::Unit => "()".into(),
@@ -157,6 +178,7 @@ impl Val {
             Val::FoldW { lo, hi, acc, x, .. } => format!("fold@{}..{}({},{})", lo, hi, acc.show(), x.show()),
             Val::Fb(i) => format!("FALLBACK{}", i),
             Val::Obs { id, n, h, ctx } => format!("obs{}(n={},h={:x},ctx={})", id, n, h & 0xffff, ctx.show()),
+            Val::Tr(t) => format!("{:?}", t),
         }
     }
 }
